@@ -34,6 +34,51 @@ pub mod kjson {
         fn null() -> Self { J::Null }
     }
 
+    // ---- a third representation: containers behind Rc, structurally equal subtrees SHARED (one allocation reachable by several
+    // paths, like YAML aliases or hash-consed documents).  An engine that identifies nodes by their address instead of their location
+    // goes wrong here and nowhere else.
+    use std::rc::Rc;
+    #[derive(Clone, Debug, PartialEq)]
+    pub enum R { Null, Bool(bool), Int(i64), Float(f64), Str(String), Arr(Rc<Vec<R>>), Obj(Rc<Vec<(String, R)>>) }
+    impl Default for R { fn default() -> Self { R::Arr(Rc::new(vec![])) } }
+    impl From<&str> for R { fn from(s: &str) -> Self { R::Str(s.to_string()) } }
+    impl From<String> for R { fn from(s: String) -> Self { R::Str(s) } }
+    impl From<bool> for R { fn from(s: bool) -> Self { R::Bool(s) } }
+    impl From<i64> for R { fn from(s: i64) -> Self { R::Int(s) } }
+    impl From<f64> for R { fn from(s: f64) -> Self { R::Float(s) } }
+    impl From<Vec<R>> for R { fn from(s: Vec<R>) -> Self { R::Arr(Rc::new(s)) } }
+    impl Queryable for R {
+        fn get(&self, key: &str) -> Option<&Self> {
+            let key = if key.len() >= 2 && key.starts_with('\'') && key.ends_with('\'') { &key[1..key.len() - 1] }
+                      else if key.len() >= 2 && key.starts_with('"') && key.ends_with('"') { &key[1..key.len() - 1] }
+                      else { key };
+            match self { R::Obj(m) => m.iter().find(|(k, _)| k == key).map(|(_, v)| v), _ => None }
+        }
+        fn as_array(&self) -> Option<&Vec<Self>> { match self { R::Arr(a) => Some(&**a), _ => None } }
+        fn as_object(&self) -> Option<Vec<(&String, &Self)>> { match self { R::Obj(m) => Some(m.iter().map(|(k, v)| (k, v)).collect()), _ => None } }
+        fn as_str(&self) -> Option<&str> { match self { R::Str(s) => Some(s), _ => None } }
+        fn as_i64(&self) -> Option<i64> { match self { R::Int(i) => Some(*i), _ => None } }
+        fn as_f64(&self) -> Option<f64> { match self { R::Float(f) => Some(*f), _ => None } }
+        fn as_bool(&self) -> Option<bool> { match self { R::Bool(b) => Some(*b), _ => None } }
+        fn null() -> Self { R::Null }
+    }
+    /// the same JSON value with every pair of structurally equal containers sharing one allocation
+    pub fn from_value_shared(v: &Value) -> R {
+        fn go(v: &Value, memo: &mut std::collections::HashMap<String, R>) -> R {
+            match v {
+                Value::Null => R::Null,
+                Value::Bool(b) => R::Bool(*b),
+                Value::Number(n) => if let Some(i) = n.as_i64() { R::Int(i) } else { R::Float(n.as_f64().unwrap()) },
+                Value::String(s) => R::Str(s.clone()),
+                Value::Array(a) => { let key = v.to_string(); if let Some(r) = memo.get(&key) { return r.clone(); }
+                                     let r = R::Arr(Rc::new(a.iter().map(|x| go(x, memo)).collect())); memo.insert(key, r.clone()); r }
+                Value::Object(o) => { let key = v.to_string(); if let Some(r) = memo.get(&key) { return r.clone(); }
+                                      let r = R::Obj(Rc::new(o.iter().map(|(k, x)| (k.clone(), go(x, memo))).collect())); memo.insert(key, r.clone()); r }
+            }
+        }
+        go(v, &mut std::collections::HashMap::new())
+    }
+
     // the public API (provided methods of the JsonPath trait) over the second implementation
     impl crate::JsonPath for J {}
 
